@@ -209,7 +209,7 @@ def conds(tier):
     M = "harness.c08_product"
     return [
         xh.Cond(M, "c08_product", t(420, 3000), kind="shape-bounded", path_timeout=60, examples=["p=2, l0=2, l1=3, l2=0, mp=1, ml=2, fp=2, fl=2", "p=3, l0=1, l1=0, l2=2, mp=0, ml=1, fp=0, fl=0", "p=1, l0=0, l1=0, l2=0, mp=2, ml=1, fp=1, fl=3"],
-                bounds="1-3 class parameters x 0-%s instantiations each (third list %s) x 0-2 member-template parameters x 0-2 function-template parameters" % ("3" if not q else "2", "free" if not q else "derived")),
+                bounds="1-3 class parameters x 0-%s instantiations each (third list %s) x 0-2 member-template parameters x 0-2 function-template parameters" % ("3" if not q else "2", "free, function-template list derived" if not q else "derived")),
         xh.Cond(M, "c08_typedefs", t(300, 1200), kind="shape-bounded", path_timeout=60, examples=["td_kind=1, td_place=2, p=2, nsdepth=1, l0=1", "td_kind=3, td_place=3, p=1, nsdepth=2, l0=0", "td_kind=2, td_place=0, p=1, nsdepth=0, l0=2"],
                 bounds="3 typedef targets x 4 placements x 1-2 parameters x namespace depth 0-2 x 0-2 enumerated instantiations"),
     ]
